@@ -166,3 +166,9 @@ Definition all_digests : list Z :=
    zdigest cpc_ICON_LOW_SIDE_DATA; zdigest cpc_ICON_HIGH_SIDE_DATA; zdigest cpc_HIP_LOW_SIDE_DATA; zdigest cpc_HIP_HIGH_SIDE_DATA;
    fdigest [cpc_ICON_ERROR_CONSTANT; cpc_HIP_ERROR_CONSTANT; hll_HIP_RSE_FACTOR; hll_NON_HIP_RSE_FACTOR; hll_COUPON_RSE_FACTOR];
    fdigest (concat composite_xArrs); zdigest composite_yStrides].
+Lemma tables_pinned : all_digests =
+  [1631660916400092824; 1336942135380431933; 1334016574715188835; 367845026185637098; 1621689400017352834;
+   2238524135473666140; 534981407937136847; 1630260656333221549; 260266529527383061; 193657861660872282;
+   1607972753685019361; 1883696197063475363; 1870653436784715027; 1435897921207620034; 2245007942206803064;
+   2021821944066709579; 356755886151464469].
+Proof. vm_compute. reflexivity. Qed.
